@@ -60,7 +60,8 @@ type c01Kind string
 
 // c01Alphabet is ordered simplest first.
 var c01Alphabet = []c01Kind{"transfer", "log1", "sstore", "sclear", "create-ok", "log-revert", "cosmos-send", "bad-nonce", "garbage",
-	"suicide-multidenom", "touch-two-empty", "double-suicide", "touch-vest-2010", "touch-vest-2050", "touch-vest-cont", "erc20-transfer", "staking-transfer"}
+	"suicide-multidenom", "touch-two-empty", "double-suicide", "touch-vest-2010", "touch-vest-2050", "touch-vest-cont", "erc20-transfer", "staking-transfer",
+	"cpc-deploy-utwo", "erc20-utwo-transfer"}
 
 type c01Case struct {
 	Blocks [][]c01Kind `json:"blocks"`
@@ -118,6 +119,7 @@ func c01Config(p c01Policy) world.Config {
 			Call(asm.CALL, c01Empty2, 0, 0, 0, 0, 0, 0).Op(asm.POP).Stop().Bytes()},
 	)
 	cfg := world.Config{NumWallets: 4, NumValidators: 3, DeployErc20: true, DeployStaking: true, Contracts: cs,
+		CpcWhitelist: []string{world.NewAcct("wal1").Bech(), world.NewAcct("wal2").Bech(), world.NewAcct("wal3").Bech()},
 		Extra: []world.ExtraAccount{
 			vest(c01Vest2010, time.Date(2010, 1, 1, 0, 0, 0, 0, time.UTC), false),
 			vest(c01Vest2050, time.Date(2050, 1, 1, 0, 0, 0, 0, time.UTC), false),
@@ -175,11 +177,27 @@ func c01BuildTx(w *world.World, k c01Kind, sender int, nonce uint64, base *big.I
 	case "erc20-transfer":
 		tok := common.BytesToAddress(w.App.CPCKeeper.GetErc20CustomPrecompiledContractAddressByMinDenom(w.Ctx(), world.Denom).Bytes())
 		return eth(tok, Enc("transfer(address,uint256)", AddrWord(AddrSink), Word(big.NewInt(1))), 300000)
+	case "cpc-deploy-utwo": // registers a new custom precompile (Cosmos tx by a whitelisted deployer): the registry changes mid-history
+		msg := &cpctypes.MsgDeployErc20ContractRequest{Authority: a.Bech(), Name: "Two", Symbol: "TWO", Decimals: 6, MinDenom: "utwo"}
+		gas := uint64(400000)
+		return w.CosmosTx(a, uint64(len(w.Validators)+sender), nonce, gas, new(big.Int).Mul(new(big.Int).SetUint64(gas), base), msg)
+	case "erc20-utwo-transfer": // call the utwo precompile at the address it gets when deployed first (an empty account before that)
+		tok := c01UtwoToken(w)
+		return eth(tok, Enc("transfer(address,uint256)", AddrWord(AddrSink), Word(big.NewInt(1))), 300000)
 	case "staking-transfer":
 		amt := new(big.Int).Exp(big.NewInt(10), big.NewInt(15), nil)
 		return eth(cpctypes.CpcStakingFixedAddress, Enc("transfer(address,uint256)", AddrWord(a.Eth()), Word(amt)), 1500000)
 	}
 	panic("unknown c01 kind " + string(k))
+}
+
+// c01UtwoToken: the address the first dynamically deployed precompile of this world gets (or has).
+func c01UtwoToken(w *world.World) common.Address {
+	ctx := w.Ctx()
+	if a := w.App.CPCKeeper.GetErc20CustomPrecompiledContractAddressByMinDenom(ctx, "utwo"); a != nil {
+		return common.BytesToAddress(a.Bytes())
+	}
+	return w.App.CPCKeeper.GetNextDynamicCustomPrecompiledContractAddress(ctx)
 }
 
 // c01Hits records which choice sites an execution reached (site key -> number of answers available).
@@ -310,6 +328,9 @@ func c01Histories(thorough bool) []c01Case {
 	}
 	// two txs in one block / in consecutive blocks: order-sensitive kinds paired with everything
 	special := []c01Kind{"double-suicide", "touch-two-empty", "touch-vest-2010", "touch-vest-2050", "staking-transfer", "suicide-multidenom"}
+	// registry change followed by a call of the new precompile, in one block and across blocks
+	out = append(out, c01Case{Blocks: [][]c01Kind{{"cpc-deploy-utwo", "erc20-utwo-transfer"}}}, c01Case{Blocks: [][]c01Kind{{"cpc-deploy-utwo"}, {"erc20-utwo-transfer"}}},
+		c01Case{Blocks: [][]c01Kind{{"erc20-utwo-transfer"}, {"cpc-deploy-utwo"}, {"erc20-utwo-transfer"}}})
 	pairWith := c01Alphabet
 	if !thorough {
 		pairWith = []c01Kind{"transfer", "sstore", "double-suicide", "touch-vest-2010", "staking-transfer", "bad-nonce"}
